@@ -40,13 +40,13 @@ theorem uniqB_iff (c : Coll) : uniqB c = true ↔ UniqInv c := by
     | false => left; rfl
     | true => right; exact h ix hix hu
 
-/-- `ScalarInv`, evaluated -/
-def scalB (c : Coll) : Bool :=
+/-- `ValueInv`, evaluated -/
+def valB (c : Coll) : Bool :=
   c.indexes.all (fun ix => !ix.unique ||
-    (distinctFields ix && c.docs.all (fun p => scalarKeys ix p.2)))
+    (distinctFields ix && c.docs.all (fun p => valueKeys ix p.2)))
 
-theorem scalB_iff (c : Coll) : scalB c = true ↔ ScalarInv c := by
-  simp only [scalB, ScalarInv, List.all_eq_true, Bool.or_eq_true, Bool.not_eq_true',
+theorem valB_iff (c : Coll) : valB c = true ↔ ValueInv c := by
+  simp only [valB, ValueInv, List.all_eq_true, Bool.or_eq_true, Bool.not_eq_true',
     Bool.and_eq_true]
   constructor
   · intro h ix hix hu
@@ -58,33 +58,36 @@ theorem scalB_iff (c : Coll) : scalB c = true ↔ ScalarInv c := by
     | false => left; rfl
     | true => right; exact h ix hix hu
 
-/-! ### counterexample 1: a stored value that looks like a query operator
+/-! ### counterexample 1: an indexed path through an array (no multikey keys)
 
-(The former witness, a dotted index path that dead-ends in a scalar — finding `deadend-null` —
-was repaired together with the matcher.) -/
+(The former witnesses were repaired in the library: a dotted index path that dead-ends in a scalar —
+finding `deadend-null`, with the matcher — and a stored value that looks like a query operator —
+finding `operator-like-value`: the look-up now compares values as data, `{key: {$eq: value}}`;
+see `olv_after` below.) -/
 
-/-- unique index on `a` -/
-def cexIx : Index := Index.mk "a_1" [("a", Val.int 1)] true false none none
+/-- unique index on `a.b` -/
+def cexIx : Index := Index.mk "a.b_1" [("a.b", Val.int 1)] true false none none
 
-/-- `{_id: 1, a: {$size: "x"}}` -/
+/-- `{_id: 1, a: [{b: 1}]}` -/
 def cexColl : Coll :=
-  { docs := [(.int 1, .doc [("_id", .int 1), ("a", .doc [("$size", .str "x")])])],
+  { docs := [(.int 1, .doc [("_id", .int 1), ("a", .arr [.doc [("b", .int 1)]])])],
     indexes := [cexIx] }
 
-/-- `insert_one({_id: 2, a: {$size: "x"}})`: the same key — but the look-up
-    `{a: {$size: "x"}}` of `_ensure_uniques` is read as the OPERATOR `$size` and matches nothing
-    (known finding `operator-like-value`) -/
+/-- `insert_one({_id: 2, a: [{b: 1}]})`: the same key, however one reads it (MongoDB: the multikey
+    key `1`, twice; `get_value_by_dot`: no `a.b`, i.e. null, twice) — but the look-up
+    `{a.b: {$eq: null}}` of `_ensure_uniques` is answered by the matcher, which walks INTO the
+    array, finds `b: 1` and matches nothing (known finding `multikey`) -/
 def cexOp : Val :=
-  .arr [.str "insert_one", .doc [("_id", .int 2), ("a", .doc [("$size", .str "x")])]]
+  .arr [.str "insert_one", .doc [("_id", .int 2), ("a", .arr [.doc [("b", .int 1)]])]]
 
-theorem cex_before : uniqB cexColl = true ∧ scalB cexColl = false := by decide +kernel
+theorem cex_before : uniqB cexColl = true ∧ valB cexColl = false := by decide +kernel
 
 theorem cex_after : uniqB (stepColl {} 0 cexColl cexOp).1 = false ∧
-    scalB (stepColl {} 0 cexColl cexOp).1 = false := by
+    valB (stepColl {} 0 cexColl cexOp).1 = false := by
   decide +kernel
 
 /-- "every operation preserves `UniqInv`" is false without a domain hypothesis (known finding
-    `operator-like-value`) -/
+    `multikey`) -/
 theorem step_uniq_false :
     ¬ (∀ (cfg : Cfg) (now : Int) (c : Coll) (op : Val), UniqInv c → UniqInv (stepColl cfg now c op).1) := by
   intro H
@@ -92,11 +95,44 @@ theorem step_uniq_false :
   rw [cex_after.1] at h1
   cases h1
 
+/-! ### the repaired defect `operator-like-value` (library commit 9ef8b46)
+
+The look-up used to be the query `{key: value}`: a stored value that is an embedded document with
+`$`-prefixed keys was read as a query operator.  It is now `{key: {$eq: value}}`: such a value is
+data, inside the domain of the theorems, and the duplicate is rejected. -/
+
+/-- unique index on `a` -/
+def olvIx : Index := Index.mk "a_1" [("a", Val.int 1)] true false none none
+
+/-- `{_id: 1, a: {$size: "x"}}` -/
+def olvColl : Coll :=
+  { docs := [(.int 1, .doc [("_id", .int 1), ("a", .doc [("$size", .str "x")])])],
+    indexes := [olvIx] }
+
+/-- `insert_one({_id: 2, a: {$size: "x"}})` (the former witness), and `{$foo: 1}` (which used to
+    raise OperationFailure: unknown operator) -/
+def olvOp : Val :=
+  .arr [.str "insert_one", .doc [("_id", .int 2), ("a", .doc [("$size", .str "x")])]]
+
+def olvOp2 : Val :=
+  .arr [.str "insert_one", .doc [("_id", .int 2), ("a", .doc [("$foo", .int 1)])]]
+
+theorem olv_before : uniqB olvColl = true ∧ valB olvColl = true := by decide +kernel
+
+/-- the duplicate is rejected with DuplicateKeyError and nothing is stored; the other value is
+    accepted -/
+theorem olv_after :
+    (match (stepColl {} 0 olvColl olvOp).2 with | .err .dupKey => true | _ => false) = true ∧
+    (stepColl {} 0 olvColl olvOp).1.docs.length = 1 ∧
+    (stepColl {} 0 olvColl olvOp2).2.isErr = false ∧
+    uniqB (stepColl {} 0 olvColl olvOp2).1 = true ∧ valB (stepColl {} 0 olvColl olvOp2).1 = true := by
+  decide +kernel
+
 /-! ### the repaired defect `partial-type-sensitive` (library commit a320edd)
 
 An update whose result is `==` to the old document (`1 → 1.0`) used to be stored WITHOUT
 `_ensure_uniques`; with a partial filter that tells the two apart the statement restricted to the
-scalar-key domain was false on this witness.  The check now runs on that branch as well: the
+value-key domain was false on this witness.  The check now runs on that branch as well: the
 update is rejected and the collection is as before. -/
 
 /-- unique index on `k`, restricted to the documents whose `t` is a double -/
@@ -113,7 +149,7 @@ def ptsColl : Coll :=
 def ptsOp : Val :=
   .arr [.str "update_one", .doc [("_id", .int 2)], .doc [("$set", .doc [("t", .dbl 1 0)])], .bool false]
 
-theorem pts_before : uniqB ptsColl = true ∧ scalB ptsColl = true := by decide +kernel
+theorem pts_before : uniqB ptsColl = true ∧ valB ptsColl = true := by decide +kernel
 
 /-- the type of the field `t` of a document -/
 def tKind : Val → String
@@ -147,24 +183,24 @@ def rejectedWith (r : R (Coll × Val)) : Option Bool :=
 
 theorem cex_insert : rejectedWith (insertDoc 0 cexCollK cexDoc) = some false := by decide +kernel
 
-theorem cex_insert_hyps : scalB cexCollK = true ∧
+theorem cex_insert_hyps : valB cexCollK = true ∧
     covers cexIxK (.doc [("_id", .int 1), ("k", .int 5)]) = true ∧
-    covers cexIxK (patchDT cexDoc) = true ∧ scalarKeys cexIxK (patchDT cexDoc) = true ∧
+    covers cexIxK (patchDT cexDoc) = true ∧ valueKeys cexIxK (patchDT cexDoc) = true ∧
     keyEq (keyVals cexIxK (.doc [("_id", .int 1), ("k", .int 5)])) (keyVals cexIxK (patchDT cexDoc)) = true := by
   decide +kernel
 
 /-- the first formulation of `dup_write_rejected` (conclusion: a WriteError) is false -/
 theorem dup_write_writeError_false :
     ¬ (∀ (now : Int) (c : Coll) (d : Val) (ix : Index) (p : Val × Val),
-        ScalarInv c → ix ∈ c.indexes → ix.unique = true → c.ttlIndexes = [] → p ∈ c.docs →
-        covers ix p.2 = true → covers ix (patchDT d) = true → scalarKeys ix (patchDT d) = true →
+        ValueInv c → ix ∈ c.indexes → ix.unique = true → c.ttlIndexes = [] → p ∈ c.docs →
+        covers ix p.2 = true → covers ix (patchDT d) = true → valueKeys ix (patchDT d) = true →
         keyEq (keyVals ix p.2) (keyVals ix (patchDT d)) = true →
         (∃ fs, d = .doc fs ∧ dhas "_id" fs = true) →
         ∃ e, insertDoc now c d = .error e ∧ e.isWriteError = true) := by
   intro H
   obtain ⟨h1, h2, h3, h4, h5⟩ := cex_insert_hyps
   obtain ⟨e, he, hw⟩ := H 0 cexCollK cexDoc cexIxK (.int 1, .doc [("_id", .int 1), ("k", .int 5)])
-    ((scalB_iff _).1 h1) (by simp [cexCollK]) rfl rfl (by simp [cexCollK]) h2 h3 h4 h5
+    ((valB_iff _).1 h1) (by simp [cexCollK]) rfl rfl (by simp [cexCollK]) h2 h3 h4 h5
     ⟨_, rfl, by decide +kernel⟩
   have := cex_insert
   rw [he] at this
